@@ -8,7 +8,7 @@ GENERATORS = ["store", "exec"]
 PROP_FILE = "C04"
 CASE_DEPS = X.CASE_DEPS
 RULE = ("histories of 1-40 requests (FC 1-6, 15, 16, 22, 23, and unassigned function codes) decoded by the real "
-        "ServerDecoder from PDU bytes and executed through the execute wrappers of the sync / asyncio / Twisted "
+        "ServerDecoder from PDU bytes (suite framers: by the socket / RTU / ASCII framer from a hand-built ADU) and executed through the execute wrappers of the sync / asyncio / Twisted "
         "front-ends (rotating) against real ModbusSlaveContexts; layouts enumerate start in {0,1,2,100,65530} x size in "
         "{1,2,9,125,2000,65536}, sparse blocks with holes, zero-mode on/off, shared tables; addresses are drawn at "
         "block boundaries, ~75% of requests valid so that the state evolves; every response and store dumps "
@@ -46,8 +46,8 @@ STARTS = [0, 1, 2, 100, 65530]
 SIZES = [1, 2, 9, 125, 2000, 65536]
 
 
-def run_history(r, L, n, fe, p_valid=0.75, dumps=True, kind="history"):
-    h = X.History(L, fe)
+def run_history(r, L, n, fe, p_valid=0.75, dumps=True, kind="history", framers=False):
+    h = X.History(L, fe, framers=framers)
     small = all(len(X.desc_cells(d)) <= 40 for d in L["blocks"])
     done = 0
     tries = 0
@@ -67,7 +67,7 @@ def run_history(r, L, n, fe, p_valid=0.75, dumps=True, kind="history"):
 def suite_histories(tier):
     r = common.rng("C04.histories")
     cases = []
-    n = 260 if tier == "quick" else 6000
+    n = 260 if tier == "quick" else 15000
     for i in range(n):
         L = X.gen_layout(r)
         cases.append(run_history(r, L, r.choice([1, 2, 5, 10, 20, 40]), i, kind="history-small"))
@@ -96,7 +96,7 @@ def suite_layouts(tier):
 def suite_shared_sparse(tier):
     r = common.rng("C04.shared")
     cases = []
-    n = 60 if tier == "quick" else 1500
+    n = 60 if tier == "quick" else 4000
     for i in range(n):
         if i % 2 == 0:
             L = X.gen_layout(r, shared=True)
@@ -108,8 +108,20 @@ def suite_shared_sparse(tier):
     return Suite("shared_sparse", X.IMPORTS, X.CHK_HIST, cases, shard=12)
 
 
+def suite_framers(tier):
+    """the same kind of histories, but every PDU is framed (socket / RTU / ASCII ADU built by hand) and the
+    request object that the real framer's processIncomingPacket delivers is the one executed"""
+    r = common.rng("C04.framers")
+    cases = []
+    n = 60 if tier == "quick" else 3000
+    for i in range(n):
+        L = X.gen_layout(r)
+        cases.append(run_history(r, L, r.choice([3, 6, 12, 24]), i, kind="framed", framers=True))
+    return Suite("framers", X.IMPORTS, X.CHK_HIST, cases, shard=15)
+
+
 def suites(tier):
-    return [suite_histories(tier), suite_layouts(tier), suite_shared_sparse(tier)]
+    return [suite_histories(tier), suite_layouts(tier), suite_shared_sparse(tier), suite_framers(tier)]
 
 
 def classify(suite, desc):
